@@ -106,16 +106,25 @@ pub fn payload(seed: u64, tag: u64, index: u64, len: usize) -> Vec<u8> {
     // shortcuts for all-zero blocks are only exercised by such data
     let h = rng.next_u64();
     if h % 4 == 0 {
-        if len <= 64 {
-            if h % 8 == 0 {
-                v.fill(0);
-            }
-        } else {
-            for (b, chunk) in v.chunks_mut(64).enumerate() {
-                if (h >> (2 + (b % 40))) & 1 == 1 {
+        // per 64-byte block (the final partial block counts as one): zero block, zero low-byte half, zero
+        // high-byte half, a single non-zero byte, all ones, or left random
+        let mut bits = h >> 2;
+        for chunk in v.chunks_mut(64) {
+            let n = chunk.len();
+            match bits % 8 {
+                0 | 1 => chunk.fill(0),
+                2 => chunk[..n / 2].fill(0),
+                3 => chunk[n / 2..].fill(0),
+                4 => {
+                    let keep = (bits >> 3) as usize % n;
+                    let b = chunk[keep] | 1;
                     chunk.fill(0);
+                    chunk[keep] = b;
                 }
+                5 => chunk.fill(0xFF),
+                _ => {}
             }
+            bits = bits.rotate_right(5) ^ 0x9E37_79B9;
         }
     }
     v
